@@ -322,7 +322,10 @@ def _parse_return(e, intermediate_repr, function_def, emit_default_doc):
                     return_doc,
                     emit_default_doc=emit_default_doc,
                 )[0],
-                "default": to_code(e.value.elts[1]).rstrip("\n"),
+                # A code default is carried as a string constant that still wears its back-ticks
+                "default": get_value(e.value.elts[1])
+                if code_quoted(get_value(e.value.elts[1]))
+                else to_code(e.value.elts[1]).rstrip("\n"),
                 "typ": to_code(
                     get_value(
                         ast.parse(intermediate_repr["returns"]["return_type"]["typ"])
